@@ -37,3 +37,43 @@ package storage
 //@   trusted
 //@   ensures result != nil
 //@   fresh result
+
+// ---- C17: every key a transaction can touch is in the contract-storage namespace -------------------------
+//@ func ensureBuffer
+//@   property C17
+//@   requires n >= 0 && n <= 1099511627775
+//@   ensures len(result) == n
+//@   ensures cap(b) < n ==> fresh(ref(result))
+//@   ensures cap(b) >= n ==> ref(result) == ref(b) && off(result) == off(b)
+
+//@ func makePrefixedKey
+//@   property C17
+//@   requires len(key) < 1099511627775
+//@   requires len(key) == 0 || cap(dst) == 0 || ref(dst) != ref(key)   -- the scratch buffer is not the key itself
+//@   modifies elems(dst)
+//@   ensures len(result) == len(key) + 1 && result[0] == prefix
+//@   ensures forall i int :: 0 <= i && i < len(key) ==> result[i+1] == old(key[i])
+
+// the three internal accessors hand the in-memory table a key that starts with the given namespace byte;
+// the three exported ones pass ST_STORAGE, the contract-storage namespace, and nothing else
+//@ func (*CacheDB).put
+//@   property C17
+//@   mode abstract
+//@   requires self != nil && len(key) < 1099511627775 && (len(key) == 0 || cap(self.keyScratch) == 0 || ref(self.keyScratch) != ref(key))
+//@   modifies *
+//@   callsite[c17-prefixed] Put#1 requires len(arg0) == len(key) + 1 && arg0[0] == byte(prefix)
+
+//@ func (*CacheDB).get
+//@   property C17
+//@   mode abstract
+//@   requires self != nil && len(key) < 1099511627775 && (len(key) == 0 || cap(self.keyScratch) == 0 || ref(self.keyScratch) != ref(key))
+//@   modifies *
+//@   callsite[c17-prefixed-mem] Get#1 requires len(arg0) == len(key) + 1 && arg0[0] == byte(prefix)
+//@   callsite[c17-prefixed-backend] Get#2 requires len(arg0) == len(key) + 1 && arg0[0] == byte(prefix)
+
+//@ func (*CacheDB).delete
+//@   property C17
+//@   mode abstract
+//@   requires self != nil && len(key) < 1099511627775 && (len(key) == 0 || cap(self.keyScratch) == 0 || ref(self.keyScratch) != ref(key))
+//@   modifies *
+//@   callsite[c17-prefixed] Delete#1 requires len(arg0) == len(key) + 1 && arg0[0] == byte(prefix)
